@@ -856,7 +856,9 @@ impl BigDecimal {
         if self.is_negative() {
             // the alternating series cancels catastrophically for negative
             // arguments: use e^x = 1 / e^|x| instead
-            return BigDecimal::one() / self.abs().exp_with_guard_digits();
+            let inverse = BigDecimal::one() / self.abs().exp_with_guard_digits();
+            // like the positive branch, always deliver the default number of digits
+            return inverse.with_prec(DEFAULT_PRECISION);
         }
 
         self.exp_with_guard_digits().with_prec(DEFAULT_PRECISION)
